@@ -15,7 +15,8 @@ KEYWORD_IDS = ["int", "long", "class", "struct", "register", "default", "double"
 # hyphenated identifiers (escaping of '-') and awkward shapes
 HYPHEN_IDS = ["a-b", "a-b-c", "x-1", "int-1", "is-a", "e-", "id-x", "long-name-with-many-parts", "a1-b2", "z-9"]
 # identifiers that asn1c itself uses in generated structures
-INTERNAL_IDS = ["present", "choice", "list", "count", "size", "buf", "free", "array", "ctx", "nothing", "member",
+# ("free", "print", "constraint" as ENUMERATED items of a named type are finding F86: steered around, witness replayed)
+INTERNAL_IDS = ["present", "choice", "list", "count", "size", "buf", "array", "ctx", "nothing", "member",
                 "specifics", "elements", "name", "op", "tags", "main", "value", "type", "oms", "td", "sptr", "st"]
 NASTY_TYPE_NAMES = ["Int", "Member", "A-B", "Type-1", "T-PR", "Class", "Struct", "NULL-T", "Asn-DEF", "X-t", "E-PR-x", "Long"]
 
@@ -27,6 +28,11 @@ class NGen(genmod.Gen):
         self.nasty = nasty
         self.used_ids = set()
         self.pool = KEYWORD_IDS + HYPHEN_IDS + INTERNAL_IDS
+    def default_for(self, t):
+        d = super().default_for(t)
+        # F43 region: a DEFAULT that resolves to a negative number (also through an ENUMERATED item) is steered around
+        if d and isinstance(d[0], int) and not isinstance(d[0], bool) and d[0] < 0: return None
+        return d
     def ident(self, p="m"):
         r = self.r
         if p in ("m", "e", "x") and r.random() < self.nasty:
@@ -126,7 +132,11 @@ def pmap(fn, items, jobs=None):
         return list(ex.map(fn, items))
 
 def fresh_dir(*parts):
+    """a fresh scratch directory under .cache/cgen (one top-level cache entry, kept young so that the
+    shared cache eviction in build._evict never removes it during a run)"""
     d = os.path.join(WORK, *parts)
+    try: os.utime(WORK)
+    except OSError: pass
     shutil.rmtree(d, ignore_errors=True)
     os.makedirs(d)
     return d
@@ -151,7 +161,7 @@ def skel_object(name, cflags):
     """cached `gcc -std=c99 -O0 -c /repo/skeletons/<name>` for a given flag set; (obj, error-or-None)"""
     src = os.path.join(build.REPO, "skeletons", name)
     key = hashlib.sha256((open(src, "rb").read() + repr(cflags).encode() + _skel_hdr_hash().encode())).hexdigest()[:16]
-    d = os.path.join(build.CACHE, "c99skel")
+    d = os.path.join(WORK, "c99skel")
     os.makedirs(d, exist_ok=True)
     obj = os.path.join(d, f"{name[:-2]}-{key}.o")
     if os.path.exists(obj): return obj, None
@@ -193,8 +203,12 @@ def compile_emitted(outdir, cflags=None, std=None):
     return objs, mobjs, errs
 
 def first_error(text):
-    for l in text.split("\n"):
-        if "error" in l: return l.strip()[:300]
+    """first error line of a gcc/g++ log plus the quoted source line"""
+    ls = text.split("\n")
+    for i, l in enumerate(ls):
+        if "error" in l:
+            src = next((x.split("|", 1)[1].strip() for x in ls[i + 1:i + 3] if re.match(r"\s*\d+ \|", x)), "")
+            return (l.strip()[:300] + (" [[" + src[:120] + "]]" if src else ""))
     return text.strip()[:300]
 
 def write_stub(outdir, type_names):
@@ -223,7 +237,7 @@ def skel_archive(cflags):
     names = [os.path.basename(s) for s in build.skel_sources()]
     key = hashlib.sha256((repr(sorted(names)) + repr(cflags) + _skel_hdr_hash() +
                           "".join(hashlib.sha256(open(s, "rb").read()).hexdigest() for s in build.skel_sources())).encode()).hexdigest()[:16]
-    lib = os.path.join(build.CACHE, "c99skel", f"libskel-{key}.a")
+    lib = os.path.join(WORK, "c99skel", f"libskel-{key}.a")
     if os.path.exists(lib): return lib
     with build._Lock("c99skel-" + key):
         if os.path.exists(lib): return lib
@@ -242,7 +256,7 @@ def dump_driver_objs():
     srcs = [os.path.join(build.HARNESS, s) for s in ("gen_driver.c", "ops_gen_core.c", "reflect.c")]
     flags = ["-std=gnu99", build.GUARD, "-w", "-O0", "-I" + os.path.join(build.REPO, "skeletons"), "-I" + build.HARNESS]
     key = build._hash(srcs + glob.glob(os.path.join(build.HARNESS, "*.h")) + build.skel_headers(), flags)
-    d = os.path.join(build.CACHE, "c10drv-" + key)
+    d = os.path.join(WORK, "c10drv-" + key)
     with build._Lock("c10drv-" + key):
         if not os.path.exists(os.path.join(d, "ok")):
             shutil.rmtree(d, ignore_errors=True)
